@@ -221,7 +221,50 @@ def ref_started_features(prog, ref):
     return set(name for (kind, name) in ref.entered if kind == "feature")
 
 
+def check_library_route(case):
+    """behave driven as a library -- Configuration(args) + Runner(config).run() -- with MORE formatters than outfiles
+    (`-f json -o report.json -f plain`): behave builds the formatter objects itself; the plain report on stdout and
+    the JSON report in the file name the same features and scenarios."""
+    import json as _json
+    import os
+    from .. import disk
+    res = CaseResult()
+    prog = runcheck.resolve_faults(case["program"])
+    proj = disk.Project(prog)
+    try:
+        argv = disk.cli_args(prog.get("cfg") or {}) + ["-f", "json", "-o", "report.json", "-f", "plain", "features"]
+        run = disk.run_inproc(proj, argv, prog)
+        if run.escaped is not None:
+            res.fail("C15.library.escape", "Runner.run() raised %r" % (run.escaped,))
+            return res
+        path = os.path.join(proj.root, "report.json")
+        try:
+            with open(path, encoding="utf-8") as f:
+                data = _json.load(f)
+        except (IOError, OSError, ValueError) as e:
+            res.fail("C15.library.json", "report.json: %r" % (e,))
+            return res
+    finally:
+        proj.close()
+    in_json = [f.get("name") for f in data]
+    scen_json = [e.get("name") for f in data for e in f.get("elements", []) if e.get("type") != "background"]
+    lines = [ln.strip() for ln in run.stdout.splitlines()]
+    in_plain = [ln.split(u": ", 1)[1] for ln in lines if ln.startswith(u"Feature: ")]
+    scen_plain = [ln.split(u": ", 1)[1] if u": " in ln else u"" for ln in lines
+                  if ln.startswith((u"Scenario: ", u"Scenario Outline: ", u"Scenario:", u"Scenario Outline:"))]
+    if in_json != in_plain:
+        res.fail("C15.library.formatters-disagree", "json reports the features %r, plain (stdout) %r" % (in_json, in_plain))
+    elif len(scen_json) != len(scen_plain):
+        res.fail("C15.library.formatters-disagree", "json reports %d scenarios, plain (stdout) %d"
+                 % (len(scen_json), len(scen_plain)))
+    res.label("library-route:more-formatters-than-outfiles")
+    res.nontrivial = len(scen_json) >= 2
+    return res
+
+
 def check(case):
+    if case.get("kind") == "library":
+        return check_library_route(case)
     from behave.formatter.base import StreamOpener
     from behave.formatter._registry import make_formatters
     res = CaseResult()
@@ -666,12 +709,16 @@ def explore(rec):
     quick = rec.tier == "quick"
     rec.hyp("formatter-runs", case_st(), 12000 if quick else 160000)
     rec.hyp("many-features", many_features_case(), 64 if quick else 1500)
+    rec.hyp("library-route", gen.program_st(faults=False, max_features=2, outcomes=["pass", "pass", "fail", "undefined"],
+                                            big_dims=["rows", "items", "steps", "tags", "lead"],
+                                            cfg=gen.cfg_st(flags=("stop",), p_tags=0.3)).map(
+        lambda p: {"kind": "library", "program": p}), 300 if quick else 6000)
 
 
 def required_labels(tier):
     return ["fmt:" + f for f in FORMATTERS] + ["json:background-steps", "nested-steps", "nested-steps+verbose", "rule-background", "outline", "failure", "deselection", "dry-run",
                                                "dry-run+undefined", "readback:file", "skipped-by-hook:feature", "skipped-by-hook:scenario",
-                                               "skipped-by-hook:rule", "display:pretty-coloured-without-source", "background-switched-off-by-hook"]
+                                               "skipped-by-hook:rule", "display:pretty-coloured-without-source", "background-switched-off-by-hook", "library-route:more-formatters-than-outfiles"]
 
 
 KNOWN_PREDICATES = {}
